@@ -104,16 +104,22 @@ def World.reach (w : World) (p : Pfx) : List Lid :=
   let ds := w.inner.recipients p
   ds ++ ds.filterMap (fun l => lookupF w.fwd l)
 
-/-- `TunnelEndpoint.notify_listeners(packet, from_tunnel)`: iterates the GENERIC listeners of the wrapped endpoint (not the
-    prefix map), skips those whose `anonymize` flag differs from `from_tunnel` -/
-def World.reachTunnel (w : World) (fromTunnel : Bool) : List Lid :=
-  let ds := if w.inner.isOpen then w.inner.listeners.filter (fun l => w.anon.contains l == fromTunnel) else []
+/-- first occurrences only (delivery is once per listener object) -/
+def dedup : List Lid → List Lid
+  | [] => []
+  | x :: xs => x :: (dedup xs).filter (fun y => y != x)
+
+/-- `TunnelEndpoint.notify_listeners(packet, from_tunnel)` (after commit dc05667): selects the listeners like the wrapped
+    endpoint does (prefix map, else the generic listeners), skips those whose `anonymize` flag differs from `from_tunnel`,
+    delivers once per listener -/
+def World.reachTunnel (w : World) (p : Pfx) (fromTunnel : Bool) : List Lid :=
+  let ds := dedup ((w.inner.recipients p).filter (fun l => w.anon.contains l == fromTunnel))
   ds ++ ds.filterMap (fun l => lookupF w.fwd l)
 
 /-- everybody who can be made to run: by a datagram of prefix `p` from the socket, by a datagram delivered from a tunnel,
     or by another overlay's anonymised send (`TunnelEndpoint.send` calls into `tunnel_community`) -/
 def World.touched (w : World) (p : Pfx) : List Lid :=
-  w.reach p ++ w.reachTunnel true ++ w.reachTunnel false ++ w.tunnelRef.toList
+  w.reach p ++ w.reachTunnel p true ++ w.reachTunnel p false ++ w.tunnelRef.toList
 
 /-! ## 2. Task manager -/
 
